@@ -2,19 +2,25 @@
    Statements only.  Proofs: Proofs/C07_walker*.v, C07_valid.v, C07_errh.v, C07_zone.v, C07_first_ev.v, C07_text.v,
    C07_driver.v, C07_driver_maps.v; C04_reader.v, C01_raw.v.
 
-   PARTIAL, in one respect.
+   PARTIAL, in two respects (the premise plain_delims; three loop ids of the context reader).
    Premise plain_delims: the segment terminator and the element separator of the header are not among the letters
    I, S, A and differ.  Without it the statement is FALSE: C07_letter_terminator_raises (a recorded finding).
    The sinks are covered: C07_pipeline_total is about run_pipeline_gen = x12n_document with ANY subset of the
    acknowledgement / HTML / XML sinks, on every environment whose maps additionally satisfy the computable predicate
    sinks_ok (Spec/C07_sinks_spec.v), and C07_shipped_sinks_ok shows the shipped maps do.
-   The context reader's totality is not a theorem (checked on the implementation against the CtxReader model). *)
+   The context reader (Spec/C07_ctx_spec.v, Proofs/C07_ctx_*.v): C07_context_reader_total — for every environment
+   satisfying the computable per-map condition cenv_ok for the requested loop id (maps well-formed for the tree
+   builder; the requested loop, where it exists, begins with a SEGMENT; the three walker-bypassing jumps of the reader
+   cannot land inside the requested loop) and every text with plain delimiters, iter_segments completes or raises
+   X12Error / EngineError; C07_shipped_context_reader_total — the shipped configuration satisfies it for EVERY loop
+   id (existing or not) except DETAIL, TABLE2AREA2 and TABLE2AREA3.  Those three begin with a LOOP, and for them the
+   statement is false of the code: C07_context_reader_wrapper_loop_raises (AttributeError; recorded finding). *)
 From Coq Require Import String.
 From PX.Lib Require Import Base PyStr Xml.
 From PX.Gen.Maps Require M_maps.
-From PX.Model Require Import Path Segment Raw Reader MapLoad MapTree Walker Element Driver Pipeline.
-From PX.Spec Require Import C01_spec C07_walker_wf C07_valid_wf C07_spec C07_sinks_spec.
-From PX.Proofs Require Import C04_reader C07_walker C07_valid C07_text C07_driver C07_driver_maps Pipeline_off C07_pipeline C07_pipeline_maps.
+From PX.Model Require Import Path Segment Raw Reader MapLoad MapTree Walker Element Driver Pipeline Context CtxReader.
+From PX.Spec Require Import C01_spec C07_walker_wf C07_valid_wf C07_spec C07_sinks_spec C07_ctx_spec.
+From PX.Proofs Require Import C04_reader C07_walker C07_valid C07_text C07_driver C07_driver_maps Pipeline_off C07_pipeline C07_pipeline_maps C07_ctx_step C07_ctx_maps C07_ctx_all.
 
 (* The reader's envelope bookkeeping raises nothing but the documented X12Error, whatever the segments. *)
 Theorem C07_reader_steps_total :
@@ -93,3 +99,27 @@ Print Assumptions C07_pipeline_total.
 Theorem C07_shipped_sinks_ok : env_ok_sinks shipped_load shipped_idx.
 Proof. exact shipped_env_ok_sinks. Qed.
 Print Assumptions C07_shipped_sinks_ok.
+
+(* ---- the context reader ---- *)
+Theorem C07_context_reader_total :
+  forall load idx loop_id text,
+    cenv_ok loop_id load idx -> plain_delims text = true ->
+    match ir_res (iter_segments_gen load idx loop_id text) with Ok _ => True | Raise e => allowed e = true end.
+Proof. exact ctx_reader_total. Qed.
+Print Assumptions C07_context_reader_total.
+
+Theorem C07_shipped_context_reader_total :
+  forall loop_id text,
+    match loop_id with Some x => existsb (str_eqb x) shipped_bad = false | None => True end ->
+    plain_delims text = true ->
+    match ir_res (iter_segments_gen shipped_load shipped_idx loop_id text) with Ok _ => True | Raise e => allowed e = true end.
+Proof. exact shipped_ctx_total_all. Qed.
+Print Assumptions C07_shipped_context_reader_total.
+
+(* the three excluded loop ids begin with a loop; there iteration raises AttributeError on a plain 837 *)
+Theorem C07_context_reader_wrapper_loop_raises :
+  shipped_bad = [sl "DETAIL"; sl "TABLE2AREA2"; sl "TABLE2AREA3"] /\
+  plain_delims ctx_detail_text = true /\
+  ir_res (iter_segments_gen shipped_load shipped_idx (Some (sl "DETAIL")) ctx_detail_text) = Raise AttributeError.
+Proof. split; [reflexivity|]. split; [exact ctx_detail_plain | exact ctx_detail_raises]. Qed.
+Print Assumptions C07_context_reader_wrapper_loop_raises.
